@@ -130,8 +130,8 @@ def c02_batches(tier):
         confs = [("spqlios-fma", "optim")] if q else [(be, var) for be in BACKENDS for var in ("optim", "debug")]
         for be, var in confs:
             sp = SPEED[be] * (1 if var == "optim" else 8)
-            # thorough: about 2*10^4 bootstrapped outputs per optim configuration (>= 10^4 binary), a quarter of that on debug builds
-            f = 1.0 if q else (1.0 if var == "optim" else 0.25)
+            # thorough: about 2*10^4 bootstrapped outputs per optim configuration (>= 10^4 binary), a seventh of that on debug builds
+            f = 1.0 if q else (1.0 if var == "optim" else 0.15)
             nk = 2 if q else (4 if var == "optim" else 2)
             # statistics batches: binary gates, MUX-heavy netlists, deep chains (depth >= 50), maximal admissible input noise
             bs.append(B("stat-mixed-%s-%s-%s" % (spec, be, var), "gates", be, var, (220 if q else 320) * f, spec=spec, nkeys=nk, mode="netlist", gates=24, mingates=20,
